@@ -1,7 +1,12 @@
 (* Entry point of the extracted markup model: decodes a case, runs the model,
    encodes the observable.  Command tags:
-     1 tokenize <str>            -> 0 <tokens> | 1 <pos>  *)
-From Emmet Require Import lib.Base lib.Wire model.MarkupTokenizer.
+     1 tokenize <str>            -> 0 <tokens> | 1 <pos>
+     2 expand <config> <str>     -> res str
+     3 events <config> <str>     -> res (list event)   (every callback invocation, C13)
+     4 tree <config> <str>       -> res (preorder list (depth, name, repeat value))  *)
+From Emmet Require Import lib.Base lib.Wire model.MarkupTokenizer model.MarkupParser model.MarkupConvert
+     model.MarkupResolve model.OutStream model.FormatHtml model.FormatIndent model.MarkupExpand
+     gen.GenMarkupSnippets.
 Local Open Scope Z_scope.
 
 Definition enc_bctx (b : bctx) : wire := [match b with BGroup => 0 | BAttr => 1 | BExpr => 2 end].
@@ -27,10 +32,122 @@ Definition enc_tres (r : tres) : wire :=
   | TErr p => 1 :: enc_nat p
   end.
 
+
+(* ---------------------------------------------------------------- config decoding *)
+Definition dec_pair {A B} (da : dec A) (db : dec B) : dec (A * B) := fun w =>
+  match da w with
+  | Some (a, w1) => match db w1 with Some (b, w2) => Some ((a, b), w2) | None => None end
+  | None => None
+  end.
+Definition dec_strs : dec (list str) := dec_list dec_str.
+Definition dec_pairs : dec (list (str * str)) := dec_list (dec_pair dec_str dec_str).
+Definition dec_text : dec wtext := fun w =>
+  match w with
+  | 0 :: w' => Some (WNone, w')
+  | 1 :: w' => match dec_str w' with Some (s, w2) => Some (WStr s, w2) | None => None end
+  | 2 :: w' => match dec_strs w' with Some (l, w2) => Some (WList l, w2) | None => None end
+  | _ => None
+  end.
+
+Notation "'dlet' x ':=' d 'in' k" :=
+  (match d with Some (x, w) => k w | None => None end)
+  (at level 200, x name, d at level 100, k at level 200, only parsing).
+
+Definition snippet_base (sel : Z) : list (str * str) :=
+  match sel with
+  | 1 => markup_snippets
+  | 2 => xsl_snippets ++ markup_snippets
+  | 3 => pug_snippets ++ markup_snippets
+  | _ => []
+  end.
+
+Definition dec_config : dec xconfig := fun w =>
+  match dec_str w with None => None | Some (syntax, w) =>
+  match dec_Z w with None => None | Some (sel, w) =>
+  match dec_pairs w with None => None | Some (user_snips, w) =>
+  match dec_pairs w with None => None | Some (vars, w) =>
+  match dec_text w with None => None | Some (text, w) =>
+  match dec_opt dec_N w with None => None | Some (max_repeat, w) =>
+  match dec_opt dec_N w with None => None | Some (max_repeat_snip, w) =>
+  match dec_bool w with None => None | Some (jsx, w) =>
+  match dec_opt dec_str w with None => None | Some (context_name, w) =>
+  match dec_strs w with None => None | Some (inline, w) =>
+  match dec_bool w with None => None | Some (reverse, w) =>
+  match dec_bool w with None => None | Some (href, w) =>
+  match dec_str w with None => None | Some (indent, w) =>
+  match dec_str w with None => None | Some (base_indent, w) =>
+  match dec_str w with None => None | Some (newline, w) =>
+  match dec_str w with None => None | Some (tag_case, w) =>
+  match dec_str w with None => None | Some (attr_case, w) =>
+  match dec_str w with None => None | Some (attr_quotes, w) =>
+  match dec_bool w with None => None | Some (format, w) =>
+  match dec_bool w with None => None | Some (format_leaf, w) =>
+  match dec_strs w with None => None | Some (format_skip, w) =>
+  match dec_strs w with None => None | Some (format_force, w) =>
+  match dec_N w with None => None | Some (inline_break, w) =>
+  match dec_bool w with None => None | Some (compact_boolean, w) =>
+  match dec_strs w with None => None | Some (boolean_attrs, w) =>
+  match dec_str w with None => None | Some (self_closing_style, w) =>
+  match dec_bool w with None => None | Some (comment_enabled, w) =>
+  match dec_strs w with None => None | Some (comment_trigger, w) =>
+  match dec_str w with None => None | Some (comment_before, w) =>
+  match dec_str w with None => None | Some (comment_after, w) =>
+  match dec_opt dec_pairs w with None => None | Some (markup_attributes, w) =>
+  match dec_opt dec_pairs w with None => None | Some (value_prefix, w) =>
+    Some (mkX (mkMConfig syntax (user_snips ++ snippet_base sel) vars text max_repeat max_repeat_snip jsx
+                         context_name inline reverse href)
+              (mkOconfig (mkOfmt indent base_indent newline) tag_case attr_case attr_quotes format format_leaf
+                         format_skip format_force inline_break compact_boolean boolean_attrs self_closing_style
+                         inline comment_enabled comment_trigger comment_before comment_after jsx
+                         markup_attributes value_prefix), w)
+  end end end end end end end end end end end end end end end end
+  end end end end end end end end end end end end end end end end.
+
+Definition enc_event (e : oevent) : wire :=
+  match e with
+  | EvText s off line col => 0 :: enc_str s ++ enc_nat off ++ enc_nat line ++ enc_nat col
+  | EvField idx ph off line col => 1 :: enc_N idx ++ enc_str ph ++ enc_nat off ++ enc_nat line ++ enc_nat col
+  end.
+
+(* preorder (depth, name, repeat value, repeat count) of the final abbreviation tree *)
+Fixpoint preorder (d : nat) (n : anode) : list (nat * option str * option rep) :=
+  match n with
+  | ANode nm _ rp _ ch _ =>
+      (d, nm, rp) :: (fix go (l : list anode) := match l with [] => [] | c :: r => preorder (S d) c ++ go r end) ch
+  end.
+Definition enc_pre (x : nat * option str * option rep) : wire :=
+  let '(d, nm, rp) := x in
+  enc_nat d ++ enc_opt enc_str nm ++ enc_opt (fun r => enc_N (rcount r) ++ enc_N (rvalue r) ++ enc_bool (rimplicit r)) rp.
+
 Definition run (w : wire) : wire :=
   match w with
   | 1 :: w' => match dec_str w' with
                | Some (s, _) => enc_tres (tokenize s)
+               | None => wire_bad
+               end
+  | 2 :: w' => match dec_config w' with
+               | Some (x, w2) => match dec_str w2 with
+                                 | Some (s, _) => enc_res enc_str (expand_markup_str x s)
+                                 | None => wire_bad
+                                 end
+               | None => wire_bad
+               end
+  | 3 :: w' => match dec_config w' with
+               | Some (x, w2) => match dec_str w2 with
+                                 | Some (s, _) =>
+                                     enc_res (fun st => enc_list enc_event (rev (os_events (fs_out st))))
+                                             (expand_markup x s)
+                                 | None => wire_bad
+                                 end
+               | None => wire_bad
+               end
+  | 4 :: w' => match dec_config w' with
+               | Some (x, w2) => match dec_str w2 with
+                                 | Some (s, _) =>
+                                     enc_res (fun t => enc_list enc_pre (flat_map (preorder 0) t))
+                                             (markup_parse (xc_m x) s)
+                                 | None => wire_bad
+                                 end
                | None => wire_bad
                end
   | _ => wire_bad
